@@ -169,6 +169,8 @@ def make_shift_bins(rng, N, sshape, vk, sk):
         a = rng.choice([N, -N, 1.5 * N, -2.0 * N, N + 0.25], size=shp).astype(float)
     elif vk == "zero":
         a = np.zeros(shp)
+        if rng.random() < 0.5:
+            a = -a              # negative zero (e.g. the negation of an offsets table): still "no shift"
         if np.size(a) > 1:
             a.flat[-1] = 2.0
     elif vk == "mixed":
@@ -214,7 +216,16 @@ def wl_shift(ctx, idx, rng):
     ctx.describe_case(desc)
     ctx.sample(desc)
     before = ctx.counters["freq_shift_events"]
-    out, exc = ctx.call("freq_shift", pb.freq_shift, sig, df)
+    small_chunks = use_dask and N >= 1024 and rng.random() < 0.5
+    if small_chunks:
+        # a Dask configuration with a small default chunk size: the signal itself is one chunk along time, so the call is valid
+        import dask
+        with dask.config.set({"array.chunk-size": "4KiB"}):
+            out, exc = ctx.call("freq_shift", pb.freq_shift, sig, df, where="freq_shift under array.chunk-size=4KiB",
+                                features={"dask_config": "small_chunk_size"})
+        ctx.count("dask_small_chunk_config")
+    else:
+        out, exc = ctx.call("freq_shift", pb.freq_shift, sig, df)
     if exc is None and ctx.counters["freq_shift_events"] == before:
         ctx.inconclusive_because("freq_shift probe did not fire")
     if exc is None:
